@@ -96,5 +96,26 @@ struct Rng {
     }
 };
 
+// Crash capture: the logger notes the public call in flight; a fatal signal raised inside the library (SIGFPE from a
+// division by zero, SIGSEGV, SIGILL, abort) is logged as a record of kind "crash" instead of truncating the trace.
+#include <csignal>
+#include <unistd.h>
+static char auv_inflight[512] = "";
+#define AUV_INFLIGHT(...) std::snprintf(auv_inflight, sizeof auv_inflight, __VA_ARGS__)
+static void auv_crash_handler(int sig) {
+    char buf[700];
+    int n = std::snprintf(buf, sizeof buf, "\n{\"k\":\"crash\",\"sig\":%d,\"inflight\":\"%s\"}\n", sig, auv_inflight);
+    fflush(stdout);
+    if (n > 0) { ssize_t w = write(1, buf, (size_t)n); (void)w; }
+    _exit(0);
+}
+struct AuvCrashInit {
+    AuvCrashInit() {
+        std::signal(SIGFPE, auv_crash_handler); std::signal(SIGSEGV, auv_crash_handler);
+        std::signal(SIGILL, auv_crash_handler); std::signal(SIGABRT, auv_crash_handler); std::signal(SIGBUS, auv_crash_handler);
+    }
+};
+static AuvCrashInit auv_crash_init_instance;
+
 // UB flag set by harness/ubhandlers.cc (clang -fsanitize-minimal-runtime build); stays 0 otherwise
 extern "C" { extern volatile int au_verif_ub_flag; }
